@@ -167,6 +167,7 @@ def check_table(part: Part, table, paths, hosts=("example.com",)):
     part.count("tables")
     part.state(repr(table))
     feat = None
+    done = []          # requests already resolved on this router: one long-lived router serves them all
     for host in hosts:
         for raw in paths:
             for method in QMETHODS:
@@ -178,11 +179,19 @@ def check_table(part: Part, table, paths, hosts=("example.com",)):
                 if got != want:
                     feat = feat or table_feature(table)
                     kind = f"want-{want[0]}-got-{got[0]}" if want[0] != got[0] else f"{want[0]}-differs"
+                    case = {"kind": "resolve", "table": table, "method": method, "path": raw, "host": host}
+                    # the same request on a fresh router: does the answer depend on what the router resolved before?
+                    fresh = build(table)
+                    fresh.freeze()
+                    if impl_resolve(fresh, request_for(method, raw, host)[0]) == want:
+                        kind = "history-dependent:" + kind
+                        case["history"] = [list(x) for x in done]
                     part.violation(f"C14:resolve:{kind}:{feat}",
-                                   f"table {table} request {method} {raw} Host={host}: dispatcher {got}, documented rule {want}",
-                                   {"kind": "resolve", "table": table, "method": method, "path": raw, "host": host})
+                                   f"table {table} request {method} {raw} Host={host}: dispatcher {got}, documented rule {want}"
+                                   + (f" (a fresh router answers correctly; {len(done)} earlier lookups on this one)" if "history" in case else ""), case)
                 else:
                     part.outcome((want[0], len(want) > 1 and str(want[1])[:40]))
+                done.append((method, raw, host))
 
 
 # ---------------------------------------------------------------- table enumeration
@@ -407,7 +416,20 @@ def run(ctx):
 
 def replay(case):
     part = Part()
-    if case["kind"] == "resolve":
+    if case["kind"] == "resolve" and case.get("history") is not None:
+        table = _tuplify(case["table"])
+        app = build(table)
+        app.freeze()
+        for (m, raw, host) in case["history"]:
+            impl_resolve(app, request_for(m, raw, host)[0])
+        req, psafe = request_for(case["method"], case["path"], case["host"])
+        got = impl_resolve(app, req)
+        want = ref.resolve(table, case["host"], psafe, case["method"])
+        if got != want:
+            kind = f"want-{want[0]}-got-{got[0]}" if want[0] != got[0] else f"{want[0]}-differs"
+            part.violation(f"C14:resolve:history-dependent:{kind}:{table_feature(table)}",
+                           f"dispatcher {got}, documented rule {want} after {len(case['history'])} earlier lookups", case)
+    elif case["kind"] == "resolve":
         table = _tuplify(case["table"])
         check_table(part, table, [case["path"]], (case["host"],))
     elif case["kind"] == "urlfor":
